@@ -72,9 +72,12 @@ LAYERS = {
             ('C19', {'R19.2'}, 'R06.7', 'the calls of a chain reach the peer through one WriteHalf::write of the whole batch: a transport that re-sends a prefix after a partial '
              'write makes the peer see other calls than were enqueued, and the replies no longer match the chain\'s accounting')],
     'C03': [('C19', {'R19.2'}, 'E9', 'the bytes of a frame reach the peer through WriteHalf::write: a transport that hands a prefix to the kernel twice emits other bytes than the encoding')],
-    'C14': [('C03', {'E1', 'E2', 'E2b', 'E6'}, 'R14.12', 'GetInterfaceDescription carries the rendered text as a JSON string through the built-in serializer: an escaping or '
+    'C14': [('C16', {'R16.8'}, 'R14.16', 'descriptions produced by the derive macros are in C14\'s domain: their comment texts must be in the form the renderer and the parser agree on'),
+            ('C03', {'E1', 'E2', 'E2b', 'E6'}, 'R14.12', 'GetInterfaceDescription carries the rendered text as a JSON string through the built-in serializer: an escaping or '
              'streaming defect there changes the text the client parses')],
-    'C15': [('C03', {'E1', 'E2', 'E2b', 'E3', 'E4', 'E5'}, 'R15.6', 'the values generated code sends are encoded by the built-in serializer: declared strings / numbers / keys must arrive as such')],
+    'C15': [('C12', {'R12.1b'}, 'R15.8', 'the renames the code generator writes as `#[zlink(rename = ..)]` reach the wire only if every proxy generator still sees them: a generator that strips '
+             'the attributes from the shared signature leaves its successors with the Rust spelling'),
+            ('C03', {'E1', 'E2', 'E2b', 'E3', 'E4', 'E5'}, 'R15.6', 'the values generated code sends are encoded by the built-in serializer: declared strings / numbers / keys must arrive as such')],
     'C17': [('C03', {'E6'}, 'R17.6', 'the only signal that makes the write buffer grow is BufferTooSmall from the slice writer: raised early (an over-estimate) it grows the buffer '
              'past what the message needs and refuses messages below the limit')],
     'C04': [('C01', 'R01.', 'R04.6', 'a reply is classified from the bytes handed to the decoder: only if these are exactly one frame is an error frame seen as an error frame'),
@@ -92,6 +95,8 @@ LAYERS = {
     'C09': [('C01', 'R01.', 'R09.7', 'a framing defect on the receive path turns one malformed or fragmented frame into lost or misattributed calls of that and later exchanges'),
             ('C02', 'R02.', 'R09.8', 'the handler awaits the send of every reply: a flush that loops, or leaves bytes queued, stalls the loop for every connection'),
             ('C18', {'R18.2'}, 'R09.9', 'a completed receive that the select drops is a call that is never answered on a healthy connection'),
+            ('C20', {'R20.8'}, 'R09.12', 'a service built on the notified State calls State::set from inside Service::handle, i.e. inside Server::run: a set() that panics when the last subscriber '
+             'is gone (exactly what a dropped, unwritable subscription leaves behind) takes the server down for every connection'),
             ('C17', {'R17.1', 'R17.2', 'R17.3'}, 'R09.10', 'an oversized frame must end in BufferOverflow for that connection only, not in unbounded growth of the server process')],
     'C10': [('C01', 'R01.', 'R10.6', 'calls pipelined behind a streaming call are in the receive buffer: they are served in order only if framing is exact'),
             ('C02', 'R02.', 'R10.7', 'every stream item is one framed reply that is flushed when sent: an item left in the write buffer is not delivered while the stream is open'),
@@ -100,7 +105,9 @@ LAYERS = {
              'item only if the futures were handed to the select in list order and nothing reorders the list in between - otherwise an item, an end of stream or a write failure '
              'lands on another client\'s connection'),
             ('C08', {'R08.6'}, 'R10.10', 'the calls a client pipelined in front of a streaming call are answered before the connection is parked with its stream: a reply that the '
-             'handler only enqueued stays in the write buffer for as long as the stream is silent')],
+             'handler only enqueued stays in the write buffer for as long as the stream is silent'),
+            ('C08', {'R08.1', 'R08.2'}, 'R10.12', 'a connection is parked with a stream only for a call that is owed replies: a oneway call answered with a stream would put items on the wire '
+             'that the client does not wait for, ahead of the replies to the calls pipelined behind it')],
     'C12': [('C02', 'R02.', 'R12.12', 'every generated method hands its call to enqueue / send_call: one document, one NUL, also for the second call of a chain'),
             ('C04', 'R04.', 'R12.10', 'generated methods map replies "exactly as the low-level receive classifies them"'),
             ('C06', {'R06.1', 'R06.2', 'R06.3', 'R06.4', 'R06.5'}, 'R12.11', 'chain forms and streaming methods are built on Chain / ReplyStream: one item per owed reply up to the final one')],
